@@ -259,7 +259,8 @@ static void c13_loop_pollers(int shard, long long seed, long long n) {
 
 struct Cfg { uint16_t S, I, TO; int wiring; int firstValid; };   // wiring 0: ref==backup, 1: distinct, 2: no backup, 3: no reference
 // firstValid: 0 = ordinary values; 1 = the first valid response of the run is epoch second 0 (2000-01-01T00:00:00, what an unset
-// RTC reports), 2 = it is 1, 3 = it is -1: legal values that sit next to a clock's own initial / sentinel encodings
+// RTC reports), 2 = it is 1, 3 = it is -1: legal values that sit next to a clock's own initial / sentinel encodings;
+// 4 = every new valid response is negative (a date before 2000), 5 = they alternate between the two ends of the 32-bit range
 struct Step { uint32_t adv; uint8_t outcome; };   // outcome 0 not ready, 1 valid new, 2 valid same-as-clock, 3 invalid
 
 static std::map<std::string, long long> g_states, g_edges;
@@ -298,7 +299,7 @@ static bool run_path(const Cfg& cfg, const std::vector<Step>& path, unsigned lon
   uint32_t maxAdv = 0;
   acetime_t nextVal = 500000000;
   bool consulted_last = false;
-  bool usedSpecial = false;
+  bool usedSpecial = false, specialFlip = false;
   for (size_t i = 0; i < path.size(); i++) {
     const Step& st = path[i];
     g_true_ms += st.adv;
@@ -306,7 +307,13 @@ static bool run_path(const Cfg& cfg, const std::vector<Step>& path, unsigned lon
     acetime_t curReading = shadow.getNow();      // what the clock reads now (shadow polled at the same instants)
     ref.ready = st.outcome != 0;
     if (st.outcome == 1) {
-      if (cfg.firstValid && !usedSpecial) { ref.response = cfg.firstValid == 1 ? 0 : (cfg.firstValid == 2 ? 1 : -1); usedSpecial = true; CNT.add("c14.special_first_valid_values"); }
+      if (cfg.firstValid >= 1 && cfg.firstValid <= 3 && !usedSpecial) { ref.response = cfg.firstValid == 1 ? 0 : (cfg.firstValid == 2 ? 1 : -1); usedSpecial = true; CNT.add("c14.special_first_valid_values"); }
+      else if (cfg.firstValid == 4) { nextVal += 7919; ref.response = -nextVal; CNT.add("c14.negative_valid_values"); }          // dates before 2000
+      else if (cfg.firstValid == 5) {                                                                                             // both ends of the 32-bit range, alternating
+        nextVal += 7919; specialFlip = !specialFlip;
+        ref.response = specialFlip ? (acetime_t) (INT32_MAX - 100000000 - (nextVal - 500000000)) : (acetime_t) (INT32_MIN + 100000000 + (nextVal - 500000000));
+        CNT.add("c14.extreme_valid_values");
+      }
       else { nextVal += 7919; ref.response = nextVal; }
     }
     else if (st.outcome == 2) ref.response = (curReading == kInv) ? (nextVal += 7919) : curReading;
@@ -461,6 +468,7 @@ static const Cfg kCfgs[] = {
   {5, 5, 100, 1}, {5, 5, 100, 2}, {5, 1, 100, 1},
   {2, 1, 0, 1}, {2, 1, 0, 0}, {7, 1, 250, 1}, {61, 3, 2000, 1}, {65, 1, 1000, 1},
   {16, 2, 500, 1, 1}, {5, 1, 100, 1, 2}, {5, 5, 100, 2, 3}, {60, 5, 1000, 0, 1},
+  {16, 2, 500, 1, 4}, {5, 1, 100, 1, 5}, {60, 5, 1000, 1, 3}, {5, 5, 100, 1, 4},
 };
 static const int kNumCfgs = sizeof(kCfgs) / sizeof(kCfgs[0]);
 
